@@ -21,7 +21,16 @@ Oracle 1 (layout leg, complete here):
     A datagram with a version other than 0/1 that the parser accepts is only counted (the layout in the
     property statement covers versions 0 and 1).
 Oracle 2 (interop leg, `interop_leg`): through vlib/trxcon_drv.py (subprocess driver around trxcon's
-  real trx_if.c).  Skipped with coverage["interop_leg"] = "driver not available" when it cannot be imported.
+  real trx_if.c, built from $VERIF_REPO).  Skipped with coverage["interop_leg"] = "driver not available" when
+  it cannot be imported.
+  * rx: every version-0 Rx message of the enumeration at the points without junk fields (148 / 444 soft bits,
+    legacy on/off, TN, all sweeps and burst patterns of the tier) is encoded by the TOOLKIT, handed to trxcon's
+    TRXD receive callback; the recorded burst indication must carry the fn, tn, rssi, toa256, burst length and
+    soft bits of the case.
+  * tx: every version-0 Tx message of the enumeration without legacy padding is given to trxcon as a burst
+    request (fn, tn, pwr, 148 / 444 hard bits); the datagram trxcon sends, if any, is parsed by TxMsg.parse_msg()
+    and must read back ver 0 and the same fn, tn, pwr and bits.
+  * trxcon dying (ASan / UBSan / signal) on one of these vectors is a violation of its own key.
 """
 from array import array
 
@@ -409,6 +418,65 @@ def tx_interop_verdict(e, c, r):
     return True, out
 
 
+def _drv_batch(d, mode, vec):
+    """Run `vec` through the driver in batch mode `mode` and normalise the replies to
+         rxdata: {"ind": bool, "fn", "tn", "rssi", "toa256", "nbits", "sbits": hex of int8, "rc"}
+         txdata: {"dgram": hex or None, "ndgrams": int, "rc"}
+       or {"died": True, "how", "report"} when trxcon died on that vector (ASan / UBSan / signal).
+    Two driver interfaces are understood: batch(lines) with "rxdata <hex>" / "txdata <fn> <tn> <pwr> <nbits> <hex>"
+    lines answering {"rc", "ind": {...}|None} / {"rc", "dgrams": [...]} (vlib/trxcon_drv.py as it exists), and
+    batch(mode, vectors) answering the normalised form directly."""
+    import inspect
+    try:
+        params = list(inspect.signature(d.batch).parameters)
+    except (TypeError, ValueError):
+        params = []
+    if params and params[0] == "lines":
+        raw = d.batch(["%s %s" % (mode, v) for v in vec])
+    else:
+        raw = d.batch(mode, vec)
+    out = []
+    for r in raw:
+        if r.get("died"):
+            out.append({"died": True, "how": r.get("how"), "report": r.get("report")})
+        elif mode == "rxdata":
+            i = r.get("ind")
+            if isinstance(i, dict):
+                out.append({"ind": True, "fn": i.get("fn"), "tn": i.get("tn"), "rssi": i.get("rssi"), "toa256": i.get("toa256"),
+                            "nbits": i.get("len"), "sbits": i.get("soft"), "rc": r.get("rc")})
+            elif not i:
+                out.append({"ind": False, "rc": r.get("rc")})
+            else:
+                out.append(r)
+        elif "dgrams" in r:
+            dg = r.get("dgrams") or []
+            out.append({"dgram": dg[0] if len(dg) == 1 else None, "ndgrams": len(dg), "rc": r.get("rc")})
+        else:
+            out.append(dict(r, ndgrams=1 if r.get("dgram") else 0))
+    return out
+
+
+def _rx_vector(e, c):
+    return bytes(E.build_tk(e["dm"], c).gen_msg(c["legacy"])).hex()
+
+
+def _tx_vector(c):
+    return "%d %d %d %d %s" % (c["fn"], c["tn"], c["pwr"], c["bl"], E.burst_values(c).hex())
+
+
+def interop_verdict(e, direction, c, r):
+    """-> (trxcon produced an indication / a datagram?, [(key, msg)])"""
+    if r.get("died"):
+        return False, [("C04:interop:%s:trxcon-died-%s" % (direction, r.get("how")),
+                        "trxcon died (%s) on a valid %s: %s" % (r.get("how"), "v0 datagram" if direction == "rx" else "burst request",
+                                                                r.get("report")))]
+    if direction == "rx":
+        return bool(r.get("ind")), rx_interop_verdict(c, r)
+    if r.get("ndgrams", 0) > 1:
+        return True, [("C04:interop:tx:datagram-count", "trxcon emitted %d datagrams for one burst request" % r["ndgrams"])]
+    return tx_interop_verdict(e, c, r)
+
+
 def work_interop(arg):
     direction, exe, ch = arg
     from vlib import trxcon_drv
@@ -419,13 +487,11 @@ def work_interop(arg):
     viol, vkeys, nviol = [], set(), 0
     try:
         if direction == "rx":
-            vec = []
-            for c in cases:
-                vec.append(bytes(E.build_tk(e["dm"], c).gen_msg(c["legacy"])).hex())
-            res = d.batch("rxdata", vec)
+            vec = [_rx_vector(e, c) for c in cases]
+            res = _drv_batch(d, "rxdata", vec)
         else:
-            vec = ["%d %d %d %d %s" % (c["fn"], c["tn"], c["pwr"], c["bl"], E.burst_values(c).hex()) for c in cases]
-            res = d.batch("txdata", vec)
+            vec = [_tx_vector(c) for c in cases]
+            res = _drv_batch(d, "txdata", vec)
     finally:
         close = getattr(d, "close", None)
         if close:
@@ -435,18 +501,15 @@ def work_interop(arg):
         raise HarnessError("trxcon driver returned %d results for %d vectors" % (len(res), len(cases)))
     emitted = 0
     for c, v, r in zip(cases, vec, res):
-        if direction == "rx":
-            out = rx_interop_verdict(c, r)
-            emitted += 1 if r.get("ind") else 0
-        else:
-            em, out = tx_interop_verdict(e, c, r)
-            emitted += 1 if em else 0
+        em, out = interop_verdict(e, direction, c, r)
+        emitted += 1 if em else 0
         for key, msg in out:
             nviol += 1
             if key not in vkeys:
                 vkeys.add(key)
                 viol.append((key, {"leg": "interop-" + direction, "case": c, "vector": v}, msg))
     cov["interop_%s_%s" % (direction, "indications" if direction == "rx" else "datagrams")] = emitted
+    cov["interop_driver_processes"] = getattr(d, "processes", 1)
     return {"cov": cov, "viol": viol, "nviol_extra": nviol - len(viol)}
 
 
@@ -514,12 +577,12 @@ def replay(ctx, case):
         try:
             d = trxcon_drv.Driver(trxcon_drv.build(bdir))
             c = case["case"]
-            if leg == "interop-rx":
-                vec = bytes(E.build_tk(e["dm"], c).gen_msg(c["legacy"])).hex()
-                out = rx_interop_verdict(c, d.batch("rxdata", [vec])[0])
+            direction = leg[8:]
+            if direction == "rx":
+                r = _drv_batch(d, "rxdata", [_rx_vector(e, c)])[0]
             else:
-                vec = "%d %d %d %d %s" % (c["fn"], c["tn"], c["pwr"], c["bl"], E.burst_values(c).hex())
-                out = tx_interop_verdict(e, c, d.batch("txdata", [vec])[0])[1]
+                r = _drv_batch(d, "txdata", [_tx_vector(c)])[0]
+            out = interop_verdict(e, direction, c, r)[1]
             close = getattr(d, "close", None)
             if close:
                 close()
